@@ -46,7 +46,9 @@ def search(deadline, rng, n=40, runs=3):
     def one(item):
         name, data = item
         seen = []
-        for _ in range(runs):
+        # the constructed modules have several diagnostics whose order or wording can depend on a hash table: they are run more
+        # often (two equally likely outcomes agree 3 times in a row with probability 1/4, 8 times with 1/128)
+        for _ in range(runs + 5 if name.startswith('constructed') else runs):
             if time.time() > deadline:
                 return None
             r = replayrun.run('alpha', data, timeout=30)
